@@ -344,6 +344,32 @@ def specials_c09():
         main += [("PUSH", gen.A_MUTATE, 20), "BALANCE", ("PUSH", 0x4C0), "MSTORE"] + ret_words(7)
         sp(f"write-after-multi-fail-{kind.lower()}", main, {gen.A_MUTATE: gen.callee_mutate()}, f"write-after-multi-fail-{kind}",
            balances=("this", "caller", gen.A_MUTATE))
+    # --- a failing CREATE whose init code had itself created a contract: the inner account must vanish too -----------------
+    inner_init = asm.creation_code(asm.assemble(gen.callee_short(33)), [])
+    for op in ("CREATE", "CREATE2"):
+        for how in ("revert", "invalid", "ok"):
+            outer = [("PUSHSIZE", "ii", "ie"), ("PUSHM", "ii"), ("PUSH", 0x100), "CODECOPY", ("PUSH", len(inner_init)), ("PUSH", 0x100), ("PUSH", 0),
+                     "CREATE", ("PUSH", 0), "MSTORE"]
+            outer += {"revert": [("PUSH", 32), ("PUSH", 0), "REVERT"], "invalid": [("PUSH", 0), "MLOAD", ("PUSH", 0), "SSTORE", "INVALID"],
+                      "ok": [("PUSH", 32), ("PUSH", 0), "RETURN"]}[how]
+            outer += [("MARK", "ii"), inner_init, ("MARK", "ie")]
+            outer_code = asm.assemble(outer)
+            main = [("PUSHSIZE", "oi", "oe"), ("PUSHM", "oi"), ("PUSH", 0x100), "CODECOPY"]
+            main += ([("PUSH", 5)] if op == "CREATE2" else []) + [("PUSH", len(outer_code)), ("PUSH", 0x100), ("PUSH", 0), op]
+            main += ["DUP1", "ISZERO", "ISZERO", ("PUSH", 0x400), "MSTORE", "RETURNDATASIZE", ("PUSH", 0x420), "MSTORE", "EXTCODESIZE", ("PUSH", 0x440), "MSTORE"]
+            if how == "revert":
+                # the inner address comes back in the revert data
+                main += [("PUSH", 32), ("PUSH", 0), ("PUSH", 0x200), "RETURNDATACOPY", ("PUSH", 0x200), "MLOAD", "DUP1", "EXTCODESIZE", ("PUSH", 0x460), "MSTORE"]
+                main += [("PUSH", 32), ("PUSH", 0x480), ("PUSH", 0), ("PUSH", 0), ("PUSH", 0), "DUP6", "GAS", "CALL", ("PUSH", 0x4A0), "MSTORE", "POP"]
+            main += ret_words(6) + [("MARK", "oi"), outer_code, ("MARK", "oe")]
+            sp(f"nested-create-{op.lower()}-{how}", main, {}, f"nested-create-rollback-{how}")
+    # --- the caller's output window after a failing call (revert data is copied, INVALID leaves it untouched) ---------------
+    for kind in ("CALL", "STATICCALL", "DELEGATECALL", "CALLCODE"):
+        main = [("PUSH", 4), "CALLDATALOAD", ("PUSH", 0x100), "MSTORE", ("PUSH", 36), "CALLDATALOAD", ("PUSH", 0x120), "MSTORE"]
+        main += [("PUSH", (0xD1D1 << 240) | 7, 32), ("PUSH", 0x500), "MSTORE", ("PUSH", (0xD2D2 << 240) | 7, 32), ("PUSH", 0x520), "MSTORE"]
+        main += gen.call_site(kind, 0xF1F1, [("PUSH", 0)], 0x100, 64, 0x500, 0x30) + flag_and_probe()
+        main += [("PUSH", 0x500), "MLOAD", ("PUSH", 0x440), "MSTORE", ("PUSH", 0x520), "MLOAD", ("PUSH", 0x460), "MSTORE"] + ret_words(4)
+        sp(f"failing-call-output-window-{kind.lower()}", main, {0xF1F1: gen.callee_readonly_mutate()}, f"output-window-{kind}")
     # --- symbolic call target: every known account is an alias candidate, anything else is an empty account ------------
     for kind in ("CALL", "STATICCALL", "DELEGATECALL"):
         for val in ([("PUSH", 0)], [("PUSH", 1)]):
